@@ -9,10 +9,10 @@ T0=$(date +%s)
 OUT=$(cd /verif && VERIF_REPO=$D /venv/bin/python run.py $P --tier $TIER --nproc ${NPROC:-16} 2>&1); RC=$?
 T1=$(date +%s)
 echo "SEEDED $ID ($TIER): exit=$RC wall=$((T1-T0))s"
-echo "$OUT" | grep '^new bucket' | cut -c1-260 | head -5
+echo "$OUT" | grep -E '^new bucket|^regression case' | cut -c1-260 | head -5
 echo "$OUT" | grep -E 'HARNESS' | head -3
 rm -rf $D
-/venv/bin/python - "$ID" "$TIER" "$RC" "$((T1-T0))" "$(echo "$OUT" | grep '^new bucket' | sed 's/^new bucket \([^ ]*\).*/\1/' | head -8 | tr '\n' ' ')" <<'PY'
+/venv/bin/python - "$ID" "$TIER" "$RC" "$((T1-T0))" "$(echo "$OUT" | grep -E '^new bucket|^regression case' | sed -e 's/^new bucket \([^ ]*\).*/\1/' -e 's/^regression case \([^ ]*\) shows bucket \([^ :]*\).*/\2[regression-replay:\1]/' | head -8 | tr '\n' ' ')" <<'PY'
 import json, sys
 sid, tier, rc, wall, buckets = sys.argv[1:6]
 p = f'/verif/seeded/{sid}/meta.json'
